@@ -49,8 +49,8 @@ func MarshalValue(self Value, isInner bool) (out interface{}, skipNull bool) {
 				return nil, false
 			}
 			marshaled, skipNull := MarshalValue(*value, true)
-			// skip builtin functions
-			if marshaled != nil && !skipNull {
+			// skip builtin functions; `none` / `null` are written as JSON null
+			if !skipNull {
 				output[key] = marshaled
 			}
 		}
@@ -62,8 +62,8 @@ func MarshalValue(self Value, isInner bool) (out interface{}, skipNull bool) {
 				return nil, false
 			}
 			marshaled, skipNull := MarshalValue(*value, true)
-			// skip builtin functions
-			if marshaled != nil && !skipNull {
+			// skip builtin functions; `none` / `null` are written as JSON null
+			if !skipNull {
 				output[key] = marshaled
 			}
 		}
@@ -73,8 +73,8 @@ func MarshalValue(self Value, isInner bool) (out interface{}, skipNull bool) {
 		for _, value := range *self.Values {
 			marshaled, skipNull := MarshalValue(*value, true)
 
-			// skip builtin functions
-			if marshaled != nil && !skipNull {
+			// skip builtin functions; `none` / `null` are written as JSON null
+			if !skipNull {
 				output = append(output, marshaled)
 			}
 		}
